@@ -112,8 +112,14 @@ func HarnessC04Scopes() {
 		}
 	}
 	src := c04Stmt(m, "s1")
-	scope := vChoice("scope", 6)
+	scope := vChoice("scope", 8)
 	switch scope {
+	case 6: // the @else block of a loop that makes no pass
+		src += "@each(z in [])q@else"
+		m.push()
+	case 7:
+		src += "@for(z = 0; z < 0; z++)q@else"
+		m.push()
 	case 5:
 		src += "@if(false)q@elseif(true)"
 		m.push()
@@ -162,6 +168,32 @@ func HarnessC04Scopes() {
 		vAssert(err == nil, "well-scoped-program-renders")
 		vAssert(vEqStr(out, m.out), "reads-see-the-innermost-visible-binding-and-nested-assignments-do-not-leak")
 	}
+}
+
+// HarnessC04LoopVar: a loop variable whose name is already visible (assigned earlier or supplied as data) must get
+// values of that type in every pass; the first element of another type fails the render.
+func HarnessC04LoopVar() {
+	k := vChoice("outer", 3) // 7, "s", 2.5 - kinds 0, 1, 4
+	kinds := []int{0, 1, 4}
+	outer := kinds[k]
+	e1 := kinds[vChoice("e1", 3)]
+	e2 := kinds[vChoice("e2", 3)]
+	var data map[string]any
+	src := ""
+	if vChoice("outer-from-data", 2) == 1 {
+		data = map[string]any{"x": []any{7, "s", 2.5}[k]}
+	} else {
+		src = "{{ x = " + c04Lits[outer].src + " }}"
+	}
+	src += "@each(x in [" + c04Lits[e1].src + ", " + c04Lits[e2].src + "])<{{ x }}>@end|{{ x }}"
+	out, err := EvaluateString(src, data)
+	vCover("rendered")
+	if e1 != outer || e2 != outer {
+		vAssert(err != nil && out == "", "loop-variable-of-another-type-fails-the-render")
+		return
+	}
+	vAssert(err == nil, "well-typed-loop-renders")
+	vAssert(out == "<"+c04Lits[e1].text+"><"+c04Lits[e2].text+">|"+c04Lits[outer].text, "loop-variable-vanishes-after-the-loop")
 }
 
 // HarnessC04Loop: the name loop can never be assigned or supplied as data; it is readable inside loops only.
